@@ -5931,6 +5931,9 @@ class CodegenCtx:
             transition_body.add()
             transition_body.add(f"// action {action!r} ")
             transition_body += self._generate_action_implementation(action, is_end=from_end, transition=transition)
+        # a transition whose target was removed as unreachable (every path through its actions leaves it) still goes on
+        # behind the skip label: a break inside a condition jumps there with the state it leaves for already set
+        continues = transition.target in self.dfa.states
         if any(
             any(
                 ProgramData.lookup(subact, DTAG.ACTION_MAY_SKIP, recurse_upwards=False, default=False) for subact in action.all_subactions()
@@ -5938,11 +5941,12 @@ class CodegenCtx:
         ):
             transition_body.add("// skip action label")
             transition_body.add(f"{self._transition_skip_action_label(transition)}:")
+            continues = True
         # Check if we should fallthrough and generate a goto
         if transition.is_fallthrough:
-            if transition.target in self.dfa.states:
+            if continues:
                 transition_body.add(f"// fallthrough")
-                if self._transition_will_directly_jump(transition, excl_fall=True):
+                if transition.target in self.dfa.states and self._transition_will_directly_jump(transition, excl_fall=True):
                     transition_body.add(f"goto fall_{self.dfa.states.index(transition.target)};")
                 else:
                     transition_body.add(f"goto repeatswitch;");
@@ -5954,14 +5958,14 @@ class CodegenCtx:
             transition_body.add(f"return {self.program_name.upper()}_DONE;")
         # Normally, though, just generate a jump to the next jpto
         elif not from_end:
-            if transition.target in self.dfa.states:
+            if continues:
                 if ProgramData.do(ProgramFlag.INDIRECT_START_PTR):
                     transition_body.add(f"if ({'++' if not needs_early_advance else ''}(*start) == end) return {self.program_name.upper()}_OK;");
                     transition_body.add("inval = **start;")
                 else:
                     transition_body.add(f"if ({'++' if not needs_early_advance else ''}start == end) return {self.program_name.upper()}_OK;");
                     transition_body.add("inval = *start;")
-                if self._transition_will_directly_jump(transition):
+                if transition.target in self.dfa.states and self._transition_will_directly_jump(transition):
                     transition_body.add(f"goto jpto_{self.dfa.states.index(transition.target)};");
                 else:
                     # use the repeatswitch case
